@@ -23,7 +23,7 @@ CHECKS = {
          'Trusted: Simulation semantics (C01), z3, stubs. Bounded: design families biased to what the passes touch, K.',
          'symbolic simulation before/after each optimisation pass + SMT equivalence (BMC-K)'),
  'C09': (TV, '4 C09', 'Per (design, pass or pass pair): in-place lowering pass on a second instance, inductive step with identity state '
-         'correspondence + BMC from reset, and each pass\'s documented postcondition as a concrete predicate on the result.',
+         'correspondence + BMC from reset, and each pass\'s documented postcondition as a concrete predicate on the result; the same lowering repeated later in the process.',
          'Trusted: Simulation semantics (C01), z3, stubs. Bounded: design families, pass pairs, K.',
          'symbolic simulation before/after each lowering pass + SMT equivalence; structural postconditions'),
  'C11': (MC, '4 C11', 'Symbolic K-cycle trace of the source before vs after copy_block / synthesize / optimize (update_working_block=False), '
@@ -109,7 +109,8 @@ CHECKS = {
  'C20': (MC, '4 C20', 'Read-only: symbolic trace and object fingerprint of the block before vs after each export/analysis call. Deterministic: the four texts the '
          'property names are emitted under every iteration order the code can distinguish when any two objects get symbolic ranks; bytes must be identical; '
          'sort keys checked for collisions over short names; the design rebuilt under rank-ordered sets (also followed by a pass: port identifiers); '
-         'transformation passes under the order model, every structurally distinct result compared with the source by the solver.',
+         'transformation passes under the order model, every structurally distinct result compared with the source by the solver; hash() salted (string-hash seed); '
+         'the back ends run one after the other in both orders (once in a fresh interpreter).',
          'Trusted: order model (one global rank order induces every controlled set; set displays inside PyRTL rewritten to set() calls from source). '
          'Bounded: designs <= 14 objects, pairs of objects, names <= 4 chars.',
          'schedule exploration with symbolic ranks (SMT-pruned) + symbolic trace comparison'),
